@@ -547,15 +547,15 @@ func raceHas(subs ...string) func(ev.RaceBlock) bool {
 func init() {
 	register(&Prop{
 		ID: "C01", Level: "exploration", Batch: 20, PerCaseTimeout: 70 * time.Second,
-		Rule:  "every 6th case the slow-survivor template (Concurrency>=2, >=C+2 sequences, the first fails at once or a continuous check fails, the others are slow, deferred checks present); otherwise case i = PRNG(seed,i) plan set from the 'order' profile (1-3 plans of 1-3 blocks x 1-4 sequences x 1-3 actions, random check groups, concurrency, tolerance, latencies with a slow tail, vault delays); a case is non-trivial/distinct by the hash of (final statuses of all non-action objects, reason, concurrency/tolerance values)",
+		Rule:  "every 20th case explores every crash point of a plan and applies the order rules to the plugin log of the process that resumes it (what ran before the crash is taken from the durable snapshot); every 6th case the slow-survivor template (Concurrency>=2, >=C+2 sequences, the first fails at once or a continuous check fails, the others are slow, deferred checks present); otherwise case i = PRNG(seed,i) plan set from the 'order' profile (1-3 plans of 1-3 blocks x 1-4 sequences x 1-3 actions, random check groups, concurrency, tolerance, latencies with a slow tail, vault delays); a case is non-trivial/distinct by the hash of (final statuses of all non-action objects, reason, concurrency/tolerance values)",
 		Cases: nCases(320, 6000),
-		Run: engineRun("C01", orderProfile, func(c *eng.Case, run *eng.Run, pr *eng.PlanRun, t *oracle.Trace, res *CaseResult) {
+		Run: everyNth(20, c01Crash, engineRun("C01", orderProfile, func(c *eng.Case, run *eng.Run, pr *eng.PlanRun, t *oracle.Trace, res *CaseResult) {
 			res.Viols = append(res.Viols, oracle.C01(pr.Spec, t)...)
 			res.Counters["invocations"] += len(t.Invs)
 			if len(pr.Spec.Blocks) > 1 {
 				res.Counters["multi_block_plans"]++
 			}
-		}, false),
+		}, false)),
 		RaceAttr:      raceHas("execSeq"),
 		MinNontrivial: 30,
 		Assumptions:   []string{"no 'overrun' steps in this profile: an abandoned timed-out plugin call may legitimately end late", "schedules are sampled, not enumerated"},
